@@ -224,6 +224,29 @@ type env struct {
 	sA, sB []*sender   // senders living on A / on B
 	rA, rB []*receiver // receivers living on A / on B
 	all    map[uint32]*sender
+
+	heals   int  // reconnects done by the circuit breaker
+	broken  bool // the connection keeps breaking: skip the remaining stable-pool cases
+	skipped int
+}
+
+// noteDelivery is the circuit breaker of the stable-pool scenarios: after a case that lost messages
+// (a link may be stuck for good, which would cost a watchdog period in every later case that uses it)
+// the connection is torn down and dialled again; after five such repairs the remaining stable-pool
+// cases of this pool size are skipped.
+func (e *env) noteDelivery(complete bool) {
+	if complete {
+		return
+	}
+	e.heals++
+	if e.heals > 5 {
+		e.broken = true
+		return
+	}
+	e.disconnect()
+	if err := e.connect(true); err != nil {
+		e.broken = true
+	}
 }
 
 func (e *env) node(side byte) *hk.HNode {
@@ -265,6 +288,22 @@ func spawnReceivers(n *hk.HNode, side byte, base uint32, count int) ([]*receiver
 		}
 		r.pid, r.res = pid, int(pid.ID%255)
 		out = append(out, r)
+	}
+	done := make(chan error, len(out))
+	for _, r := range out {
+		if err := n.Send(r.pid, mkAlias{done}); err != nil {
+			return nil, err
+		}
+	}
+	for range out {
+		select {
+		case err := <-done:
+			if err != nil {
+				return nil, err
+			}
+		case <-time.After(10 * time.Second):
+			return nil, fmt.Errorf("receivers did not create their aliases")
+		}
 	}
 	return out, nil
 }
